@@ -655,7 +655,18 @@ def string_fragment(report, uri_consts, shape_consts):
             ("shexer/utils/shapes.py", None, 'build_shapes_name_for_class_uri', 'build_shapes_name_for_class_uri',
              {'class_uri': 'str', 'shapes_namespace': 'str'}, 'str'),
             ("shexer/utils/translators/list_of_classes_to_shape_map.py", 'ListOfClassesToShapeMap', '_get_shape_label_for_class_uri',
-             'get_shape_label_for_class_uri', {'class_uri': 'str'}, 'str')]
+             'get_shape_label_for_class_uri', {'class_uri': 'str'}, 'str'),
+            ("shexer/utils/uri.py", None, 'add_corners', 'add_corners', {'a_uri': 'str'}, 'str'),
+            ("shexer/utils/uri.py", None, 'add_corners_if_needed', 'add_corners_if_needed', {'a_uri': 'str'}, 'str'),
+            ("shexer/utils/uri.py", None, 'add_corners_if_it_is_an_uri', 'add_corners_if_it_is_an_uri', {'a_candidate_uri': 'str'}, 'str'),
+            ("shexer/utils/uri.py", None, 'there_is_arroba_after_last_quotes', 'there_is_arroba_after_last_quotes', {'target_str': 'str'}, 'bool'),
+            ("shexer/utils/uri.py", None, 'unprefixize_uri_if_possible', 'unprefixize_uri_if_possible',
+             {'target_uri': 'str', 'prefix_namespaces_dict': 'strdict', 'include_corners': 'bool'}, 'str'),
+            ("shexer/utils/uri.py", None, 'unprefixize_uri_mandatory', 'unprefixize_uri_mandatory',
+             {'target_uri': 'str', 'prefix_namespaces_dict': 'strdict', 'include_corners': 'bool'}, 'str'),
+            ("shexer/utils/uri.py", None, 'prefixize_uri_if_possible', 'prefixize_uri_if_possible',
+             {'target_uri': 'str', 'namespaces_prefix_dict': 'strdict', 'corners': 'bool'}, 'str')]
+    funcs = {}
     for rel, cls, pyname, lname, types, ret in jobs:
         try:
             tree = parse(rel)
@@ -667,7 +678,13 @@ def string_fragment(report, uri_consts, shape_consts):
                         and node.value.func.value.id == 're' and len(node.value.args) == 1 and isinstance(node.value.args[0], ast.Constant) \
                         and isinstance(node.value.args[0].value, str) and re.fullmatch(r"\[[^\]\\^\-\[]+\]", node.value.args[0].value):
                     local[node.targets[0].id] = ('charclass', node.value.args[0].value[1:-1])
-            XS.translate(out, report, assumptions, 'S.' + lname, fn, types, ret, local)
+            local.update(funcs.get(rel, {}))
+            if XS.translate(out, report, assumptions, 'S.' + lname, fn, types, ret, local) and cls is None and ret in ('str', 'bool', 'int') \
+                    and "(resolve :" not in out[-1] and all(t in ('str', 'bool', 'int') for t in types.values()):
+                nd = len(fn.args.defaults)
+                dflt = {a.arg: d for a, d in zip(fn.args.args[len(fn.args.args) - nd:], fn.args.defaults)
+                        if isinstance(d, ast.Constant) and isinstance(d.value, (bool, str))}
+                funcs.setdefault(rel, {})[pyname] = ('func', lname, [(a.arg, types[a.arg]) for a in fn.args.args], ret, dflt)
         except (Untranslatable, OSError, SyntaxError) as e:
             out.append("def %s_untranslatable : Unit := ()  -- %s\n" % (lname, str(e)[:100]))
             report['S.' + lname] = 'UNTRANSLATABLE: ' + str(e)[:200]
